@@ -214,6 +214,7 @@ func (c *Client) clientHandshakeLocked() error {
 	// DialContext functions should take a timeout or something like that. Also
 	// we should have a DialContext.
 	c.underlyingConn.SetReadDeadline(time.Time{})
+	verifhook.Pause("transport.Client.Handshake:before-open")
 	c.ss.handle = newHandleForSession(c.underlyingConn, c.ss, c.config.Leaf, c.config.maxBufferedPackets())
 	c.wg.Add(1)
 	if !c.state.CompareAndSwap(clientStateHandshaking, clientStateOpen) {
